@@ -2,7 +2,7 @@
 import json, random, struct
 from harness import tlc, engine, wire
 from harness.common import Machinery
-from checks.c06 import run_tlc, int_valued, judge_batched
+from checks.c06 import run_tlc, int_valued, judge_batched, rerun_hangs
 
 ENUM_CFG = "INIT EnumInit\nNEXT EnumNext\nCONSTRAINT EnumEmit\nINVARIANT LawsHold\nCHECK_DEADLOCK FALSE\n"
 JUDGE_CFG = "INIT JudgeInit\nNEXT JudgeNext\nCHECK_DEADLOCK FALSE\n"
@@ -65,7 +65,7 @@ def random_doubles(rnd, n):
 
 def run(rep):
     quick = rep.tier == "quick"
-    res = run_tlc(rep.pid, "C18", ENUM_CFG, env={"TIER": rep.tier}, timeout=1800, tag="enum")
+    res = run_tlc(rep.pid, "C18", ENUM_CFG, env={"TIER": rep.tier}, timeout=1800, tag="enum", heap="4g")
     rep.add_tlc("C18.Enum+Laws", res)
     cases = expand(res.records)
     if len(cases) < 5000:
@@ -84,6 +84,7 @@ def run(rep):
     rep.spaces.append({"space": "random bit patterns x printing calls (seeded)", "cases": len(extra), "complete": False})
     allc = cases + extra
     results = engine.run_cases(rep.pid, allc, driver="checks.c18_driver:run_case")
+    results = rerun_hangs(rep.pid, allc, results, "checks.c18_driver:run_case")
     byid = {c["id"]: c for c in allc}
     recs = []
     for r in results:
